@@ -144,6 +144,7 @@ func init() {
 		}
 		return "ok r=" + strings.Join(out, ",")
 	})
+	RegisterOp("simgenl", func(a []string) string { return RunOp("simgen " + strings.Join(a, " ")) })
 	// simseq <ver> <phone> <count> <cmd>: <count> consecutive default frames of one Terminal
 	RegisterOp("simseq", func(a []string) string {
 		t := newTerm(atoi(a[0]), a[1])
@@ -156,7 +157,10 @@ func init() {
 		return fmt.Sprintf("ok n=%d dig=%x first=%s last=%s", n, RpDig(fr), fr[0], fr[n-1])
 	})
 	// simreply <ver> <phone> <seq> <frame> ...: ExpectedReply of one Terminal for the frames in turn
-	RegisterOp("simreply", func(a []string) string {
+	// simreplym: the same op under the name used for the input class of the recorded finding
+	// C20/expected-reply-malformed-1212 (known_findings.json request_regex), so that a later repair of the code
+	// (both sides answering nothing, or from the frame alone) raises no correspondence alarm
+	simreply := func(a []string) string {
 		t := newTerm(atoi(a[0]), a[1])
 		seq := uint16(atoi(a[2]))
 		var out []string
@@ -169,7 +173,9 @@ func init() {
 			}
 		}
 		return "ok r=" + strings.Join(out, ",")
-	})
+	}
+	RegisterOp("simreply", simreply)
+	RegisterOp("simreplym", simreply)
 	// simdump: the default bodies as a Coq table (used once to write Model/Sim.v default_bodies)
 	RegisterOp("simdump", func(a []string) string {
 		var sb strings.Builder
@@ -529,10 +535,11 @@ func c20(c *Ctx) {
 	}
 
 	// (3) the serial wrap: 70 000 consecutive frames of one Terminal, each decoded
-	for _, ver := range []int{2, 3} {
-		if quick && ver == 3 {
-			ver = 1 + 2*g.rng.Intn(2)
-		}
+	wrapVers := []int{2, 3}
+	if quick { // one run in the quick tier: the version varies with the seed
+		wrapVers = []int{1 + g.rng.Intn(3)}
+	}
+	for _, ver := range wrapVers {
 		phone := g.digits(11)
 		n := 70000
 		c.Do(fmt.Sprintf("simseq %d %s %d 2", ver, phone, n), true)
@@ -547,9 +554,28 @@ func c20(c *Ctx) {
 			}
 		}
 		c.Count("wrap run of 70000")
-		if quick {
-			break
+	}
+
+	// (3b) custom bodies that do not fit the 10-bit length field (known finding C20/body-over-1023): the code frames
+	// them with an unmasked length, the decoder rejects the frame.  A repaired CreateCommandData may refuse (nil):
+	// accepted as well; op simgenl = simgen under the name of the finding's input class
+	for i := 0; i < 3; i++ {
+		ver := 1 + g.rng.Intn(3)
+		phone := g.digits(1 + g.rng.Intn(12))
+		body := g.rbytes(1024 + []int{0, 1, 1 + g.rng.Intn(3000)}[i])
+		req := fmt.Sprintf("simgenl %d %s 0 %d %s", ver, phone, 0x0900, Hx(body))
+		ans := c.Do(req, true)
+		if ans == "nil" {
+			c.Count("body over 1023 refused")
+			continue
 		}
+		f := Unhx(strings.TrimPrefix(ans, "ok frame="))
+		d, ok := RpDecode(f)
+		if !ok || !bytes.Equal(d.Body, body) {
+			viol("body-over-1023", "CreateCommandData frames a body of more than 1023 bytes: the frame is rejected by the decoder (or decodes to another body)",
+				req, fmt.Sprintf("decodable=%v", ok), "a frame that decodes with that body, or no frame")
+		}
+		c.Count("body over 1023")
 	}
 
 	// (4) ExpectedReply: against the model, against the standard's table, and against a live server
@@ -699,11 +725,16 @@ func c20(c *Ctx) {
 			mal[0] = byte(len(mal) - 6 + 1 + g.rng.Intn(9))
 		}
 		badf := t.CreateCommandData(0x1212, mal)
-		req = fmt.Sprintf("simreply %d %s 0 %s", ver, phone, Hx(badf))
+		req = fmt.Sprintf("simreplym %d %s 0 %s", ver, phone, Hx(badf))
 		c.Do(req, true)
 		res = play([][]byte{badf})
 		c.Eval("live malformed "+req, true)
 		exp := newTerm(ver, phone).ExpectedReply(0, Hx(badf))
+		if res.Timeout == "" && len(res.Frames) == 1 && exp == nil {
+			// a repaired code: the server answers nothing to a 0x1212 it cannot parse and nothing is predicted
+			c.Count("malformed 0x1212 (nothing sent, nothing predicted)")
+			continue
+		}
 		if res.Timeout != "" || len(res.Frames) != 2 {
 			viol("live-count", "the live server did not answer a 0x1212 frame exactly once", req, fmt.Sprintf("%d frames timeout=%s", len(res.Frames), res.Timeout), "2 frames")
 		} else if !bytes.Equal(exp, res.Frames[0]) {
